@@ -475,4 +475,470 @@ theorem C12_frame_nesting_depth (o : Opts) (done : Cif) (bcode : Str) (hfresh : 
     hcif hpre hseen hfseen hcode hnew hwb hpost hseen2 hfseen2 hfuel (by simp [elemsToks, elemToks, elemsToks_plains]) (Or.inr (Or.inr ⟨rfl, hmfd⟩)) hrest hF
   simpa [openFrameCode] using this
 
+
+/-! ## the same classes with the POSITION of the report on the scanner's walk
+
+`RepAt o s j r`: the report `r` is made in the state `j` tokens behind `s` (after the `j`-th CONSUME_TOKEN, or there with the next
+token scanned and pending), its line is that state's line; `At o s n s'`: the final state is `n` tokens behind `s`.  `j` counts
+the tokens of the run in front plus the tokens of the defective construct that precede the reporting state.  (The two classes
+anchored at the scanner state, `C12_unquoted_key_at` / `C12_null_key_word_at`, give the report's position only: behind TRIM_TOKEN
+the walk is no longer a walk over the tokens of the document.) -/
+
+theorem C12_unexpected_delim_at (o : Opts) {path : Path} {put : Container → Cif} {code : Str} (hv : View o path put code)
+    (pre post : List Item) (ty : TokType) (tx : Str) (seen seen2 : List Str) (rest : List TokSpec) (s : PS) (fuel : Nat) (w : W)
+    (fs : List Container) (ls : List Loop) (isBlock : Bool) (hcif : w.cif = put (.mk code fs ls))
+    (hty : ty = .clist ∨ ty = .ctable)
+    (hpre : wfItems o pre seen = true) (hseen : ∀ k ∈ normNames o ls, k ∈ seen) (hnoloop : lastIsLoop pre = false)
+    (hpost : wfItems o post seen2 = true)
+    (hseen2 : ∀ k ∈ normNames o (denoteItems o.dia o.normKey pre ls), k ∈ seen2)
+    (hfuel : szItems pre + szItems post + 1 ≤ fuel)
+    (hrest : lastIsLoop post = true → ∃ ty tx ts, rest = (ty, tx) :: ts ∧ isTerminator ty = true)
+    (hF : Feeds o s (itemsToks pre ++ ([(ty, tx)] ++ (itemsToks post ++ rest)))) :
+    ∃ s' r, elemsLoop o (fuel + post.length + 1 + pre.length) s (some path) isBlock acceptAll w
+        = elemsLoop o fuel s' (some path) isBlock acceptAll
+            { log := r :: w.log, cif := put (.mk code fs (denoteItems o.dia o.normKey (pre ++ post) ls)) }
+      ∧ r.code = CIF_UNEXPECTED_DELIM ∧ Feeds o s' rest
+      ∧ RepAt o s ((itemsToks pre).length + 0) r ∧ At o s ((itemsToks pre).length + 1 + (itemsToks post).length) s' :=
+  unexpected_delim_run_at o hv pre post ty tx seen seen2 rest s fuel w fs ls isBlock hcif hty hpre hseen hnoloop hpost hseen2 hfuel hrest hF
+
+theorem C12_unexpected_term_at (o : Opts) {path : Path} {put : Container → Cif} {code : Str} (hv : View o path put code)
+    (pre post : List Item) (tx : Str) (seen seen2 : List Str) (rest : List TokSpec) (s : PS) (fuel : Nat) (w : W)
+    (fs : List Container) (ls : List Loop) (hcif : w.cif = put (.mk code fs ls))
+    (hpre : wfItems o pre seen = true) (hseen : ∀ k ∈ normNames o ls, k ∈ seen)
+    (hpost : wfItems o post seen2 = true)
+    (hseen2 : ∀ k ∈ normNames o (denoteItems o.dia o.normKey pre ls), k ∈ seen2)
+    (hfuel : szItems pre + szItems post + 1 ≤ fuel)
+    (hrest : lastIsLoop post = true → ∃ ty tx ts, rest = (ty, tx) :: ts ∧ isTerminator ty = true)
+    (hF : Feeds o s (itemsToks pre ++ ([(.frameTerm, tx)] ++ (itemsToks post ++ rest)))) :
+    ∃ s' r, elemsLoop o (fuel + post.length + 1 + pre.length) s (some path) true acceptAll w
+        = elemsLoop o fuel s' (some path) true acceptAll
+            { log := r :: w.log, cif := put (.mk code fs (denoteItems o.dia o.normKey (pre ++ post) ls)) }
+      ∧ r.code = CIF_UNEXPECTED_TERM ∧ Feeds o s' rest
+      ∧ RepAt o s ((itemsToks pre).length + 0) r ∧ At o s ((itemsToks pre).length + 1 + (itemsToks post).length) s' :=
+  unexpected_term_run_at o hv pre post tx seen seen2 rest s fuel w fs ls hcif hpre hseen hpost hseen2 hfuel hrest hF
+
+theorem C12_missing_delim_list_at (o : Opts) {path : Path} {put : Container → Cif} {code : Str} (hv : View o path put code)
+    (pre post : List Item) (n : Str) (btx : Str) (vs : List Val) (seen seen2 : List Str) (rest : List TokSpec) (s : PS) (fuel : Nat)
+    (w : W) (fs : List Container) (ls : List Loop) (isBlock : Bool) (hcif : w.cif = put (.mk code fs ls))
+    (hpre : wfItems o pre seen = true) (hseen : ∀ k ∈ normNames o ls, k ∈ seen)
+    (hname : wfName n = true) (hfresh : o.norm n ∉ normNames o (denoteItems o.dia o.normKey pre ls))
+    (hwv : wfVals o vs = true) (hpost : wfItems o post seen2 = true)
+    (hseen2 : ∀ k ∈ normNames o (denoteItems o.dia o.normKey (pre ++ [.item n (.lst vs)]) ls), k ∈ seen2)
+    (hfuel : szItems pre + szItems post + (szVals vs + 2) + 1 ≤ fuel)
+    (hpostne : post ≠ [] ∨ ∃ ty tx ts, rest = (ty, tx) :: ts ∧ isTerminator ty = true)
+    (hrest : lastIsLoop post = true → ∃ ty tx ts, rest = (ty, tx) :: ts ∧ isTerminator ty = true)
+    (hF : Feeds o s (itemsToks pre ++ (((.name, n) :: (.olist, btx) :: valsToks vs) ++ (itemsToks post ++ rest)))) :
+    ∃ s' r, elemsLoop o (fuel + post.length + 1 + pre.length) s (some path) isBlock acceptAll w
+        = elemsLoop o fuel s' (some path) isBlock acceptAll
+            { log := r :: w.log, cif := put (.mk code fs (denoteItems o.dia o.normKey (pre ++ [.item n (.lst vs)] ++ post) ls)) }
+      ∧ r.code = CIF_MISSING_DELIM ∧ Feeds o s' rest
+      ∧ RepAt o s ((itemsToks pre).length + (1 + (1 + (valsToks vs).length))) r
+      ∧ At o s ((itemsToks pre).length + (1 + (1 + (valsToks vs).length)) + (itemsToks post).length) s' :=
+  missing_delim_list_run_at o hv pre post n btx vs seen seen2 rest s fuel w fs ls isBlock hcif hpre hseen hname hfresh hwv hpost hseen2 hfuel hpostne hrest hF
+
+theorem C12_missing_delim_table_at (o : Opts) {path : Path} {put : Container → Cif} {code : Str} (hv : View o path put code)
+    (pre post : List Item) (n : Str) (btx : Str) (es : List (Str × Presentation × Val)) (seen seen2 : List Str) (rest : List TokSpec)
+    (s : PS) (fuel : Nat) (w : W) (fs : List Container) (ls : List Loop) (isBlock : Bool) (hcif : w.cif = put (.mk code fs ls))
+    (hpre : wfItems o pre seen = true) (hseen : ∀ k ∈ normNames o ls, k ∈ seen)
+    (hname : wfName n = true) (hfresh : o.norm n ∉ normNames o (denoteItems o.dia o.normKey pre ls))
+    (hwv : wfEntries o es = true) (hpost : wfItems o post seen2 = true)
+    (hseen2 : ∀ k ∈ normNames o (denoteItems o.dia o.normKey (pre ++ [.item n (.tbl es)]) ls), k ∈ seen2)
+    (hfuel : szItems pre + szItems post + (szEntries es + 2) + 1 ≤ fuel)
+    (hpostne : post ≠ [] ∨ ∃ ty tx ts, rest = (ty, tx) :: ts ∧ isTerminator ty = true)
+    (hrest : lastIsLoop post = true → ∃ ty tx ts, rest = (ty, tx) :: ts ∧ isTerminator ty = true)
+    (hF : Feeds o s (itemsToks pre ++ (((.name, n) :: (.otable, btx) :: entriesToks es) ++ (itemsToks post ++ rest)))) :
+    ∃ s' r, elemsLoop o (fuel + post.length + 1 + pre.length) s (some path) isBlock acceptAll w
+        = elemsLoop o fuel s' (some path) isBlock acceptAll
+            { log := r :: w.log, cif := put (.mk code fs (denoteItems o.dia o.normKey (pre ++ [.item n (.tbl es)] ++ post) ls)) }
+      ∧ r.code = CIF_MISSING_DELIM ∧ Feeds o s' rest
+      ∧ RepAt o s ((itemsToks pre).length + (1 + (1 + (entriesToks es).length))) r
+      ∧ At o s ((itemsToks pre).length + (1 + (1 + (entriesToks es).length)) + (itemsToks post).length) s' :=
+  missing_delim_table_run_at o hv pre post n btx es seen seen2 rest s fuel w fs ls isBlock hcif hpre hseen hname hfresh hwv hpost hseen2 hfuel hpostne hrest hF
+
+theorem C12_table_missing_value_at (o : Opts) {path : Path} {put : Container → Cif} {code : Str} (hv : View o path put code)
+    (pre post : List Item) (n : Str) (btx : Str) (epre epost : List (Str × Presentation × Val)) (k : Str) (kp : Presentation)
+    (seen seen2 : List Str) (rest : List TokSpec) (s : PS) (fuel : Nat) (w : W)
+    (fs : List Container) (ls : List Loop) (isBlock : Bool) (hcif : w.cif = put (.mk code fs ls))
+    (hpre : wfItems o pre seen = true) (hseen : ∀ k ∈ normNames o ls, k ∈ seen)
+    (hname : wfName n = true) (hfresh : o.norm n ∉ normNames o (denoteItems o.dia o.normKey pre ls))
+    (hepre : wfEntries o epre = true) (hepost : wfEntries o epost = true) (hk0 : noNul k = true) (hkd : hasDisallowed k = false)
+    (hpost : wfItems o post seen2 = true)
+    (hseen2 : ∀ x ∈ normNames o (denoteItems o.dia o.normKey (pre ++ [.item n (.tbl (epre ++ [(k, kp, Val.unk)] ++ epost))]) ls), x ∈ seen2)
+    (hfuel : szItems pre + szItems post + (szEntries epre + szEntries epost + 0 + 2 + 2 * epre.length + 3) + 1 ≤ fuel)
+    (hrest : lastIsLoop post = true → ∃ ty tx ts, rest = (ty, tx) :: ts ∧ isTerminator ty = true)
+    (hF : Feeds o s (itemsToks pre ++ (((.name, n) :: (.otable, btx) ::
+        (entriesToks epre ++ ([(TokType.key, k)] ++ (entriesToks epost ++ [(.ctable, [125])])))) ++ (itemsToks post ++ rest)))) :
+    ∃ s' r, elemsLoop o (fuel + post.length + 1 + pre.length) s (some path) isBlock acceptAll w
+        = elemsLoop o fuel s' (some path) isBlock acceptAll
+            { log := r :: w.log,
+              cif := put (.mk code fs (denoteItems o.dia o.normKey (pre ++ [.item n (.tbl (epre ++ [(k, kp, Val.unk)] ++ epost))] ++ post) ls)) }
+      ∧ r.code = CIF_MISSING_VALUE ∧ Feeds o s' rest
+      ∧ RepAt o s ((itemsToks pre).length + (1 + (1 + ((entriesToks epre).length + 1)))) r
+      ∧ At o s ((itemsToks pre).length + (1 + (1 + ((entriesToks epre).length + 1 + ((entriesToks epost).length + 1))))
+          + (itemsToks post).length) s' :=
+  table_missing_value_run_at o hv pre post n btx epre epost k kp seen seen2 rest s fuel w fs ls isBlock hcif hpre hseen hname hfresh hepre hepost hk0 hkd hpost hseen2 hfuel hrest hF
+
+theorem C12_misquoted_key_at (o : Opts) {path : Path} {put : Container → Cif} {code : Str} (hv : View o path put code)
+    (pre post : List Item) (n : Str) (btx : Str) (epre epost : List (Str × Presentation × Val)) (body : Str) (kp : Presentation) (v : Val)
+    (seen seen2 : List Str) (rest : List TokSpec) (s : PS) (fuel : Nat) (w : W)
+    (fs : List Container) (ls : List Loop) (isBlock : Bool) (hcif : w.cif = put (.mk code fs ls))
+    (hpre : wfItems o pre seen = true) (hseen : ∀ k ∈ normNames o ls, k ∈ seen)
+    (hname : wfName n = true) (hfresh : o.norm n ∉ normNames o (denoteItems o.dia o.normKey pre ls))
+    (hepre : wfEntries o epre = true) (hepost : wfEntries o epost = true) (hk0 : noNul (Decode.decodeText o.unfold o.prem body) = true)
+    (hkd : hasDisallowed (Decode.decodeText o.unfold o.prem body) = false) (hwv : wfVal o v = true)
+    (hpost : wfItems o post seen2 = true)
+    (hseen2 : ∀ x ∈ normNames o (denoteItems o.dia o.normKey (pre ++ [.item n (.tbl (epre ++ [(Decode.decodeText o.unfold o.prem body, kp, v)] ++ epost))]) ls), x ∈ seen2)
+    (hfuel : szItems pre + szItems post + (szEntries epre + szEntries epost + (szVal v) + 2 + 2 * epre.length + 3) + 1 ≤ fuel)
+    (hrest : lastIsLoop post = true → ∃ ty tx ts, rest = (ty, tx) :: ts ∧ isTerminator ty = true)
+    (hF : Feeds o s (itemsToks pre ++ (((.name, n) :: (.otable, btx) ::
+        (entriesToks epre ++ (((TokType.tkey, body) :: valToks v) ++ (entriesToks epost ++ [(.ctable, [125])])))) ++ (itemsToks post ++ rest)))) :
+    ∃ s' r, elemsLoop o (fuel + post.length + 1 + pre.length) s (some path) isBlock acceptAll w
+        = elemsLoop o fuel s' (some path) isBlock acceptAll
+            { log := r :: w.log,
+              cif := put (.mk code fs (denoteItems o.dia o.normKey (pre ++ [.item n (.tbl (epre ++ [(Decode.decodeText o.unfold o.prem body, kp, v)] ++ epost))] ++ post) ls)) }
+      ∧ r.code = CIF_MISQUOTED_KEY ∧ Feeds o s' rest
+      ∧ RepAt o s ((itemsToks pre).length + (1 + (1 + ((entriesToks epre).length + 0)))) r
+      ∧ At o s ((itemsToks pre).length + (1 + (1 + ((entriesToks epre).length + (1 + (valToks v).length) + ((entriesToks epost).length + 1))))
+          + (itemsToks post).length) s' :=
+  table_misquoted_key_run_at o hv pre post n btx epre epost body kp v seen seen2 rest s fuel w fs ls isBlock hcif hpre hseen hname hfresh hepre hepost hk0 hkd hwv hpost hseen2 hfuel hrest hF
+
+theorem C12_missing_key_at (o : Opts) {path : Path} {put : Container → Cif} {code : Str} (hv : View o path put code)
+    (pre post : List Item) (n : Str) (btx : Str) (epre epost : List (Str × Presentation × Val)) (v : Val)
+    (seen seen2 : List Str) (rest : List TokSpec) (s : PS) (fuel : Nat) (w : W)
+    (fs : List Container) (ls : List Loop) (isBlock : Bool) (hcif : w.cif = put (.mk code fs ls))
+    (hpre : wfItems o pre seen = true) (hseen : ∀ k ∈ normNames o ls, k ∈ seen)
+    (hname : wfName n = true) (hfresh : o.norm n ∉ normNames o (denoteItems o.dia o.normKey pre ls))
+    (hepre : wfEntries o epre = true) (hepost : wfEntries o epost = true) (hnb : notBare v = true) (hwv : wfVal o v = true)
+    (hpost : wfItems o post seen2 = true)
+    (hseen2 : ∀ x ∈ normNames o (denoteItems o.dia o.normKey (pre ++ [.item n (.tbl (epre ++ [] ++ epost))]) ls), x ∈ seen2)
+    (hfuel : szItems pre + szItems post + (szEntries epre + szEntries epost + (szVal v) + 1 + 2 * epre.length + 3) + 1 ≤ fuel)
+    (hrest : lastIsLoop post = true → ∃ ty tx ts, rest = (ty, tx) :: ts ∧ isTerminator ty = true)
+    (hF : Feeds o s (itemsToks pre ++ (((.name, n) :: (.otable, btx) ::
+        (entriesToks epre ++ ((valToks v) ++ (entriesToks epost ++ [(.ctable, [125])])))) ++ (itemsToks post ++ rest)))) :
+    ∃ s' r, elemsLoop o (fuel + post.length + 1 + pre.length) s (some path) isBlock acceptAll w
+        = elemsLoop o fuel s' (some path) isBlock acceptAll
+            { log := r :: w.log,
+              cif := put (.mk code fs (denoteItems o.dia o.normKey (pre ++ [.item n (.tbl (epre ++ [] ++ epost))] ++ post) ls)) }
+      ∧ r.code = CIF_MISSING_KEY ∧ Feeds o s' rest
+      ∧ RepAt o s ((itemsToks pre).length + (1 + (1 + ((entriesToks epre).length + 0)))) r
+      ∧ At o s ((itemsToks pre).length + (1 + (1 + ((entriesToks epre).length + (valToks v).length + ((entriesToks epost).length + 1))))
+          + (itemsToks post).length) s' :=
+  table_missing_key_run_at o hv pre post n btx epre epost v seen seen2 rest s fuel w fs ls isBlock hcif hpre hseen hname hfresh hepre hepost hnb hwv hpost hseen2 hfuel hrest hF
+
+theorem C12_missing_key_word_at (o : Opts) {path : Path} {put : Container → Cif} {code : Str} (hv : View o path put code)
+    (pre post : List Item) (n : Str) (btx : Str) (epre epost : List (Str × Presentation × Val)) (tx : Str)
+    (seen seen2 : List Str) (rest : List TokSpec) (s : PS) (fuel : Nat) (w : W)
+    (fs : List Container) (ls : List Loop) (isBlock : Bool) (hcif : w.cif = put (.mk code fs ls))
+    (hpre : wfItems o pre seen = true) (hseen : ∀ k ∈ normNames o ls, k ∈ seen)
+    (hname : wfName n = true) (hfresh : o.norm n ∉ normNames o (denoteItems o.dia o.normKey pre ls))
+    (hepre : wfEntries o epre = true) (hepost : wfEntries o epost = true) (hhead : tx.head? ≠ some colon) (hcolon : colonIdx tx = none)
+    (hpost : wfItems o post seen2 = true)
+    (hseen2 : ∀ x ∈ normNames o (denoteItems o.dia o.normKey (pre ++ [.item n (.tbl (epre ++ [] ++ epost))]) ls), x ∈ seen2)
+    (hfuel : szItems pre + szItems post + (szEntries epre + szEntries epost + 0 + 1 + 2 * epre.length + 3) + 1 ≤ fuel)
+    (hrest : lastIsLoop post = true → ∃ ty tx ts, rest = (ty, tx) :: ts ∧ isTerminator ty = true)
+    (hF : Feeds o s (itemsToks pre ++ (((.name, n) :: (.otable, btx) ::
+        (entriesToks epre ++ ([(TokType.value, tx)] ++ (entriesToks epost ++ [(.ctable, [125])])))) ++ (itemsToks post ++ rest)))) :
+    ∃ s' r, elemsLoop o (fuel + post.length + 1 + pre.length) s (some path) isBlock acceptAll w
+        = elemsLoop o fuel s' (some path) isBlock acceptAll
+            { log := r :: w.log,
+              cif := put (.mk code fs (denoteItems o.dia o.normKey (pre ++ [.item n (.tbl (epre ++ [] ++ epost))] ++ post) ls)) }
+      ∧ r.code = CIF_MISSING_KEY ∧ Feeds o s' rest
+      ∧ RepAt o s ((itemsToks pre).length + (1 + (1 + ((entriesToks epre).length + 0)))) r
+      ∧ At o s ((itemsToks pre).length + (1 + (1 + ((entriesToks epre).length + 1 + ((entriesToks epost).length + 1))))
+          + (itemsToks post).length) s' :=
+  table_stray_word_run_at o hv pre post n btx epre epost tx seen seen2 rest s fuel w fs ls isBlock hcif hpre hseen hname hfresh hepre hepost hhead hcolon hpost hseen2 hfuel hrest hF
+
+theorem C12_null_key_at (o : Opts) {path : Path} {put : Container → Cif} {code : Str} (hv : View o path put code)
+    (pre post : List Item) (n : Str) (btx : Str) (epre epost : List (Str × Presentation × Val)) (v : Val)
+    (seen seen2 : List Str) (rest : List TokSpec) (s : PS) (fuel : Nat) (w : W)
+    (fs : List Container) (ls : List Loop) (isBlock : Bool) (hcif : w.cif = put (.mk code fs ls))
+    (hpre : wfItems o pre seen = true) (hseen : ∀ k ∈ normNames o ls, k ∈ seen)
+    (hname : wfName n = true) (hfresh : o.norm n ∉ normNames o (denoteItems o.dia o.normKey pre ls))
+    (hepre : wfEntries o epre = true) (hepost : wfEntries o epost = true) (hwv : wfVal o v = true)
+    (hpost : wfItems o post seen2 = true)
+    (hseen2 : ∀ x ∈ normNames o (denoteItems o.dia o.normKey (pre ++ [.item n (.tbl (epre ++ [] ++ epost))]) ls), x ∈ seen2)
+    (hfuel : szItems pre + szItems post + (szEntries epre + szEntries epost + (szVal v) + 2 + 2 * epre.length + 3) + 1 ≤ fuel)
+    (hrest : lastIsLoop post = true → ∃ ty tx ts, rest = (ty, tx) :: ts ∧ isTerminator ty = true)
+    (hF : Feeds o s (itemsToks pre ++ (((.name, n) :: (.otable, btx) ::
+        (entriesToks epre ++ (((TokType.value, [colon]) :: valToks v) ++ (entriesToks epost ++ [(.ctable, [125])])))) ++ (itemsToks post ++ rest)))) :
+    ∃ s' r, elemsLoop o (fuel + post.length + 1 + pre.length) s (some path) isBlock acceptAll w
+        = elemsLoop o fuel s' (some path) isBlock acceptAll
+            { log := r :: w.log,
+              cif := put (.mk code fs (denoteItems o.dia o.normKey (pre ++ [.item n (.tbl (epre ++ [] ++ epost))] ++ post) ls)) }
+      ∧ r.code = CIF_NULL_KEY ∧ Feeds o s' rest
+      ∧ RepAt o s ((itemsToks pre).length + (1 + (1 + ((entriesToks epre).length + 0)))) r
+      ∧ At o s ((itemsToks pre).length + (1 + (1 + ((entriesToks epre).length + (1 + (valToks v).length) + ((entriesToks epost).length + 1))))
+          + (itemsToks post).length) s' :=
+  table_null_key_run_at o hv pre post n btx epre epost v seen seen2 rest s fuel w fs ls isBlock hcif hpre hseen hname hfresh hepre hepost hwv hpost hseen2 hfuel hrest hF
+
+theorem C12_unquoted_key_at (o : Opts) (t : Tok) (s' : PS) (i : Nat) (v : Val) (epost : List (Str × Presentation × Val))
+    (X : List TokSpec) (fuel : Nat) (s1 : PS) (w1 : W) (acc1 : List (Str × Str × V))
+    (hn : ∀ pol w, nextTok o s1 pol w = .ok (t, s') w) (hty : t.ty = .value) (hhead : t.text.head? ≠ some colon)
+    (hci : colonIdx t.text = some i)
+    (hk0 : noNul (t.text.take i) = true) (hkd : hasDisallowed (t.text.take i) = false)
+    (hwv : wfVal o v = true) (hepost : wfEntries o epost = true) (hf : szVal v + szEntries epost + 3 ≤ fuel)
+    (hre : Feeds o (consume (trimTok s' t (i + 1) .key).2) (valToks v ++ (entriesToks epost ++ (.ctable, [125]) :: X))) :
+    ∃ s2 r, tableLoop o fuel s1 acc1 acceptAll w1
+        = .ok (denoteEntries o.dia o.normKey epost (putEntry o.normKey acc1 (t.text.take i) (denoteVal o.dia o.normKey v)), s2)
+            { w1 with log := r :: w1.log }
+      ∧ r.code = CIF_UNQUOTED_KEY ∧ Feeds o s2 X
+      ∧ RepAt o s1 0 r :=
+  table_unquoted_key_tail_at o t s' i v epost X fuel s1 w1 acc1 hn hty hhead hci hk0 hkd hwv hepost hf hre
+
+theorem C12_null_key_word_at (o : Opts) (t : Tok) (s' : PS) (v : Val) (epost : List (Str × Presentation × Val))
+    (X : List TokSpec) (fuel : Nat) (s1 : PS) (w1 : W) (acc1 : List (Str × Str × V))
+    (hn : ∀ pol w, nextTok o s1 pol w = .ok (t, s') w) (hty : t.ty = .value) (hhead : t.text.head? = some colon)
+    (hlen : 1 < t.text.length) (hwv : wfVal o v = true) (hepost : wfEntries o epost = true)
+    (hf : szVal v + szEntries epost + 3 ≤ fuel)
+    (hre : Feeds o (consume (trimTok s' t 1 .key).2) (valToks v ++ (entriesToks epost ++ (.ctable, [125]) :: X))) :
+    ∃ s2 r, tableLoop o fuel s1 acc1 acceptAll w1
+        = .ok (denoteEntries o.dia o.normKey epost acc1, s2) { w1 with log := r :: w1.log }
+      ∧ r.code = CIF_NULL_KEY ∧ Feeds o s2 X
+      ∧ RepAt o s1 0 r :=
+  table_null_key_long_tail_at o t s' v epost X fuel s1 w1 acc1 hn hty hhead hlen hwv hepost hf hre
+
+theorem C12_frame_unterminated_at (o : Opts) (done : Cif) (bcode : Str) (hfresh : ∀ c ∈ done, codeIs o.norm (o.norm bcode) c = false)
+    (hmfd : o.maxFrameDepth ≠ 0) (pre post : List Elem) (fc : Str) (body : List Item)
+    (seen fseen seen2 fseen2 : List Str) (ty : TokType) (tx : Str) (ts rest : List TokSpec) (s : PS) (fuel : Nat) (w : W)
+    (fs : List Container) (ls : List Loop)
+    (hcif : w.cif = done ++ [.mk bcode fs ls]) (hpre : wfElems o pre seen fseen = true)
+    (hseen : ∀ k ∈ normNames o ls, k ∈ seen) (hfseen : ∀ c ∈ fs, o.norm c.code ∈ fseen)
+    (hcode : wfCode fc = true) (hnew : ∀ c ∈ (denoteElems o.dia o.normKey pre fs ls).1, codeIs o.norm (o.norm fc) c = false)
+    (hwb : wfItems o body [] = true)
+    (hpost : wfElems o post seen2 fseen2 = true)
+    (hseen2 : ∀ k ∈ normNames o (denoteElems o.dia o.normKey (pre ++ [.frame fc (body.map Elem.plain)]) fs ls).2, k ∈ seen2)
+    (hfseen2 : ∀ c ∈ (denoteElems o.dia o.normKey (pre ++ [.frame fc (body.map Elem.plain)]) fs ls).1, o.norm c.code ∈ fseen2)
+    (hfuel : szElems pre + szElems post + (szItems body + body.length + 3) + 1 ≤ fuel)
+    (hnext : elemsToks post ++ rest = (ty, tx) :: ts) (hty : endsOpenFrame o ty)
+    (hrest : ∃ ty tx ts, rest = (ty, tx) :: ts ∧ isTerminator ty = true)
+    (hF : Feeds o s (elemsToks pre ++ (((.frameHead, fc) :: itemsToks body) ++ (elemsToks post ++ rest)))) :
+    ∃ s' r, elemsLoop o (fuel + post.length + 1 + pre.length) s (some [o.norm bcode]) true acceptAll w
+        = elemsLoop o fuel s' (some [o.norm bcode]) true acceptAll
+            { log := r :: w.log,
+              cif := done ++ [.mk bcode (denoteElems o.dia o.normKey (pre ++ [.frame fc (body.map Elem.plain)] ++ post) fs ls).1
+                (denoteElems o.dia o.normKey (pre ++ [.frame fc (body.map Elem.plain)] ++ post) fs ls).2] }
+      ∧ r.code = openFrameCode ty ∧ Feeds o s' rest
+      ∧ RepAt o s ((elemsToks pre).length + (1 + (itemsToks body).length)) r
+      ∧ At o s ((elemsToks pre).length + (1 + (itemsToks body).length) + (elemsToks post).length) s' :=
+  frame_open_run_at o done bcode hfresh hmfd pre post fc body seen fseen seen2 fseen2 ty tx ts rest s fuel w fs ls hcif hpre hseen hfseen hcode hnew hwb hpost hseen2 hfseen2 hfuel hnext hty hrest hF
+
+theorem C12_frame_not_allowed_at (o : Opts) (done : Cif) (bcode : Str) (hfresh : ∀ c ∈ done, codeIs o.norm (o.norm bcode) c = false)
+    (hmfd : o.maxFrameDepth = 0) (pre post : List Item) (fc : Str) (body : List Item) (seen seen2 : List Str)
+    (rest : List TokSpec) (s : PS) (fuel : Nat) (w : W) (fs : List Container) (ls : List Loop)
+    (hcif : w.cif = done ++ [.mk bcode fs ls]) (hpre : wfItems o pre seen = true) (hseen : ∀ k ∈ normNames o ls, k ∈ seen)
+    (hcode : wfCode fc = true) (hnew : ∀ c ∈ fs, codeIs o.norm (o.norm fc) c = false) (hwb : wfItems o body [] = true)
+    (hpost : wfItems o post seen2 = true) (hseen2 : ∀ k ∈ normNames o (denoteItems o.dia o.normKey pre ls), k ∈ seen2)
+    (hfuel : szItems pre + szItems post + (szItems body + body.length + 3) + 1 ≤ fuel)
+    (hrest : lastIsLoop post = true → ∃ ty tx ts, rest = (ty, tx) :: ts ∧ isTerminator ty = true)
+    (hF : Feeds o s (itemsToks pre ++ ((.frameHead, fc) :: (itemsToks body ++ (.frameTerm, []) :: (itemsToks post ++ rest))))) :
+    ∃ s' r, elemsLoop o (fuel + post.length + 1 + pre.length) s (some [o.norm bcode]) true acceptAll w
+        = elemsLoop o fuel s' (some [o.norm bcode]) true acceptAll
+            { log := r :: w.log,
+              cif := done ++ [.mk bcode (fs ++ [.mk fc [] (denoteItems o.dia o.normKey body [])])
+                (denoteItems o.dia o.normKey (pre ++ post) ls)] }
+      ∧ r.code = CIF_FRAME_NOT_ALLOWED ∧ Feeds o s' rest
+      ∧ RepAt o s ((itemsToks pre).length + 0) r
+      ∧ At o s ((itemsToks pre).length + (1 + (itemsToks body).length + 1) + (itemsToks post).length) s' :=
+  frame_not_allowed_run_at o done bcode hfresh hmfd pre post fc body seen seen2 rest s fuel w fs ls hcif hpre hseen hcode hnew hwb hpost hseen2 hfuel hrest hF
+
+theorem C12_null_loop_at (o : Opts) {path : Path} {put : Container → Cif} {code : Str} (hv : View o path put code)
+    (pre post : List Item) (seen seen2 : List Str) (rest : List TokSpec) (s : PS) (fuel : Nat) (w : W)
+    (fs : List Container) (ls : List Loop) (isBlock : Bool) (hcif : w.cif = put (.mk code fs ls))
+    (hpre : wfItems o pre seen = true) (hseen : ∀ k ∈ normNames o ls, k ∈ seen)
+    (hpost : wfItems o post seen2 = true)
+    (hseen2 : ∀ k ∈ normNames o (denoteItems o.dia o.normKey pre ls), k ∈ seen2)
+    (hfuel : szItems pre + szItems post + 1 + 1 ≤ fuel)
+    (hnext : ∃ ty tx ts, itemsToks post ++ rest = (ty, tx) :: ts ∧ ty ≠ .name)
+    (hrest : lastIsLoop post = true → ∃ ty tx ts, rest = (ty, tx) :: ts ∧ isTerminator ty = true)
+    (hF : Feeds o s (itemsToks pre ++ ([(.loopKw, [])] ++ (itemsToks post ++ rest)))) :
+    ∃ s' r, elemsLoop o (fuel + post.length + 1 + pre.length) s (some path) isBlock acceptAll w
+        = elemsLoop o fuel s' (some path) isBlock acceptAll
+            { log := r :: w.log, cif := put (.mk code fs (denoteItems o.dia o.normKey (pre ++ post) ls)) }
+      ∧ r.code = CIF_NULL_LOOP ∧ Feeds o s' rest
+      ∧ RepAt o s ((itemsToks pre).length + 1) r ∧ At o s ((itemsToks pre).length + 1 + (itemsToks post).length) s' :=
+  null_loop_run_at o hv pre post seen seen2 rest s fuel w fs ls isBlock hcif hpre hseen hpost hseen2 hfuel hnext hrest hF
+
+theorem C12_invalid_itemname_at (o : Opts) {path : Path} {put : Container → Cif} {code : Str} (hv : View o path put code)
+    (pre post : List Item) (n : Str) (v : Val) (seen seen2 : List Str) (rest : List TokSpec) (s : PS) (fuel : Nat) (w : W)
+    (fs : List Container) (ls : List Loop) (isBlock : Bool) (hcif : w.cif = put (.mk code fs ls))
+    (hpre : wfItems o pre seen = true) (hseen : ∀ k ∈ normNames o ls, k ∈ seen)
+    (hn0 : noNul n = true) (hinv : isValidName true n = false)
+    (hwv : wfVal o v = true) (hpost : wfItems o post seen2 = true)
+    (hseen2 : ∀ k ∈ normNames o (denoteItems o.dia o.normKey pre ls), k ∈ seen2)
+    (hfuel : szItems pre + szItems post + szVal v + 1 ≤ fuel)
+    (hrest : lastIsLoop post = true → ∃ ty tx ts, rest = (ty, tx) :: ts ∧ isTerminator ty = true)
+    (hF : Feeds o s (itemsToks pre ++ (((.name, n) :: valToks v) ++ (itemsToks post ++ rest)))) :
+    ∃ s' r, elemsLoop o (fuel + post.length + 1 + pre.length) s (some path) isBlock acceptAll w
+        = elemsLoop o fuel s' (some path) isBlock acceptAll
+            { log := r :: w.log, cif := put (.mk code fs (denoteItems o.dia o.normKey (pre ++ post) ls)) }
+      ∧ r.code = CIF_INVALID_ITEMNAME ∧ Feeds o s' rest
+      ∧ RepAt o s ((itemsToks pre).length + 1) r
+      ∧ At o s ((itemsToks pre).length + (1 + (valToks v).length) + (itemsToks post).length) s' :=
+  invalid_name_run_at o hv pre post n v seen seen2 rest s fuel w fs ls isBlock hcif hpre hseen hn0 hinv hwv hpost hseen2 hfuel hrest hF
+
+theorem C12_invalid_framecode_at (o : Opts) (done : Cif) (bcode : Str) (hfresh : ∀ c ∈ done, codeIs o.norm (o.norm bcode) c = false)
+    (hmfd : o.maxFrameDepth ≠ 0) (pre post : List Elem) (fc : Str) (body : List Item)
+    (seen fseen seen2 fseen2 : List Str) (rest : List TokSpec) (s : PS) (fuel : Nat) (w : W)
+    (fs : List Container) (ls : List Loop)
+    (hcif : w.cif = done ++ [.mk bcode fs ls]) (hpre : wfElems o pre seen fseen = true)
+    (hseen : ∀ k ∈ normNames o ls, k ∈ seen) (hfseen : ∀ c ∈ fs, o.norm c.code ∈ fseen)
+    (hn0 : noNul fc = true) (hinv : isValidName false fc = false)
+    (hnew : ∀ c ∈ (denoteElems o.dia o.normKey pre fs ls).1, codeIs o.norm (o.norm fc) c = false)
+    (hwb : wfItems o body [] = true)
+    (hpost : wfElems o post seen2 fseen2 = true)
+    (hseen2 : ∀ k ∈ normNames o (denoteElems o.dia o.normKey (pre ++ [.frame fc (body.map Elem.plain)]) fs ls).2, k ∈ seen2)
+    (hfseen2 : ∀ c ∈ (denoteElems o.dia o.normKey (pre ++ [.frame fc (body.map Elem.plain)]) fs ls).1, o.norm c.code ∈ fseen2)
+    (hfuel : szElems pre + szElems post + (szItems body + body.length + 3) + 1 ≤ fuel)
+    (hrest : ∃ ty tx ts, rest = (ty, tx) :: ts ∧ isTerminator ty = true)
+    (hF : Feeds o s (elemsToks pre ++ (((.frameHead, fc) :: (itemsToks body ++ [(.frameTerm, [])])) ++ (elemsToks post ++ rest)))) :
+    ∃ s' r, elemsLoop o (fuel + post.length + 1 + pre.length) s (some [o.norm bcode]) true acceptAll w
+        = elemsLoop o fuel s' (some [o.norm bcode]) true acceptAll
+            { log := r :: w.log,
+              cif := done ++ [.mk bcode (denoteElems o.dia o.normKey (pre ++ [.frame fc (body.map Elem.plain)] ++ post) fs ls).1
+                (denoteElems o.dia o.normKey (pre ++ [.frame fc (body.map Elem.plain)] ++ post) fs ls).2] }
+      ∧ r.code = CIF_INVALID_FRAMECODE ∧ Feeds o s' rest
+      ∧ RepAt o s ((elemsToks pre).length + 0) r
+      ∧ At o s ((elemsToks pre).length + (1 + (itemsToks body).length + 1) + (elemsToks post).length) s' :=
+  invalid_framecode_run_at o done bcode hfresh hmfd pre post fc body seen fseen seen2 fseen2 rest s fuel w fs ls hcif hpre hseen hfseen hn0 hinv hnew hwb hpost hseen2 hfseen2 hfuel hrest hF
+
+theorem C12_dup_framecode_at (o : Opts) (done : Cif) (bcode : Str) (hfresh : ∀ c ∈ done, codeIs o.norm (o.norm bcode) c = false)
+    (hmfd : o.maxFrameDepth ≠ 0) (pre post : List Elem) (fc fc0 : Str) (body : List Item)
+    (seen fseen seen2 fseen2 bseen : List Str) (rest : List TokSpec) (s : PS) (fuel : Nat) (w : W)
+    (fs fa fb ffs : List Container) (ls fls : List Loop)
+    (hcif : w.cif = done ++ [.mk bcode fs ls]) (hpre : wfElems o pre seen fseen = true)
+    (hseen : ∀ k ∈ normNames o ls, k ∈ seen) (hfseen : ∀ c ∈ fs, o.norm c.code ∈ fseen)
+    (hcode : wfCode fc = true) (hk : o.norm fc0 = o.norm fc)
+    (hsplit : (denoteElems o.dia o.normKey pre fs ls).1 = fa ++ .mk fc0 ffs fls :: fb)
+    (ha : ∀ c ∈ fa, codeIs o.norm (o.norm fc) c = false) (hb : ∀ c ∈ fb, codeIs o.norm (o.norm fc) c = false)
+    (hwb : wfItems o body bseen = true) (hbseen : ∀ k ∈ normNames o fls, k ∈ bseen) (hpk : allPacked fls)
+    (hpost : wfElems o post seen2 fseen2 = true)
+    (hseen2 : ∀ k ∈ normNames o (denoteElems o.dia o.normKey pre fs ls).2, k ∈ seen2)
+    (hfseen2 : ∀ c ∈ (denoteElems o.dia o.normKey pre fs ls).1, o.norm c.code ∈ fseen2)
+    (hfuel : szElems pre + szElems post + (szItems body + body.length + 3) + 1 ≤ fuel)
+    (hrest : ∃ ty tx ts, rest = (ty, tx) :: ts ∧ isTerminator ty = true)
+    (hF : Feeds o s (elemsToks pre ++ (((.frameHead, fc) :: (itemsToks body ++ [(.frameTerm, [])])) ++ (elemsToks post ++ rest)))) :
+    ∃ s' r, elemsLoop o (fuel + post.length + 1 + pre.length) s (some [o.norm bcode]) true acceptAll w
+        = elemsLoop o fuel s' (some [o.norm bcode]) true acceptAll
+            { log := r :: w.log,
+              cif := done ++ [.mk bcode
+                (denoteElems o.dia o.normKey post (fa ++ .mk fc0 ffs (denoteItems o.dia o.normKey body fls) :: fb)
+                  (denoteElems o.dia o.normKey pre fs ls).2).1
+                (denoteElems o.dia o.normKey post (fa ++ .mk fc0 ffs (denoteItems o.dia o.normKey body fls) :: fb)
+                  (denoteElems o.dia o.normKey pre fs ls).2).2] }
+      ∧ r.code = CIF_DUP_FRAMECODE ∧ Feeds o s' rest
+      ∧ RepAt o s ((elemsToks pre).length + 0) r
+      ∧ At o s ((elemsToks pre).length + (1 + (itemsToks body).length + 1) + (elemsToks post).length) s' :=
+  dup_framecode_run_at o done bcode hfresh hmfd pre post fc fc0 body seen fseen seen2 fseen2 bseen rest s fuel w fs fa fb ffs ls fls hcif hpre hseen hfseen hcode hk hsplit ha hb hwb hbseen hpk hpost hseen2 hfseen2 hfuel hrest hF
+
+theorem C12_invalid_blockcode_at (o : Opts) (hstore : o.store = true) (hmfd : o.maxFrameDepth ≠ 0) (pre post : List Block) (b : Block)
+    (bseen bseen2 : List Str) (s : PS) (fuel : Nat) (w : W)
+    (hpre : wfBlocks o pre bseen = true) (hseen : ∀ c ∈ w.cif, o.norm c.code ∈ bseen)
+    (hn0 : noNul b.code = true) (hinv : isValidName false b.code = false)
+    (hnew : ∀ c ∈ w.cif ++ denote o.dia o.normKey pre, codeIs o.norm (o.norm b.code) c = false)
+    (hwb : wfElems o b.body [] [] = true) (hpost : wfBlocks o post bseen2 = true)
+    (hseen2 : ∀ c ∈ w.cif ++ denote o.dia o.normKey (pre ++ [b]), o.norm c.code ∈ bseen2)
+    (hfuel : szBlocks pre + szBlock b + szBlocks post + 1 ≤ fuel)
+    (hF : Feeds o s (blocksToks pre ++ ((.blockHead, b.code) :: (elemsToks b.body ++ (blocksToks post ++ [(.end_, [])]))))) :
+    ∃ s' r, blocksLoop o (fuel + post.length + 1 + pre.length) s acceptAll w
+        = .ok s' { log := r :: w.log, cif := w.cif ++ denote o.dia o.normKey (pre ++ [b] ++ post) }
+      ∧ r.code = CIF_INVALID_BLOCKCODE
+      ∧ RepAt o s ((blocksToks pre).length + 0) r :=
+  invalid_blockcode_run_at o hstore hmfd pre post b bseen bseen2 s fuel w hpre hseen hn0 hinv hnew hwb hpost hseen2 hfuel hF
+
+theorem C12_dup_blockcode_at (o : Opts) (hstore : o.store = true) (hmfd : o.maxFrameDepth ≠ 0) (pre post : List Block)
+    (code code0 : Str) (body : List Item) (bseen bseen2 iseen : List Str) (s : PS) (fuel : Nat) (w : W)
+    (ca cb : Cif) (bfs : List Container) (bls : List Loop)
+    (hpre : wfBlocks o pre bseen = true) (hseen : ∀ c ∈ w.cif, o.norm c.code ∈ bseen)
+    (hcode : wfCode code = true) (hk : o.norm code0 = o.norm code)
+    (hsplit : w.cif ++ denote o.dia o.normKey pre = ca ++ .mk code0 bfs bls :: cb)
+    (ha : ∀ c ∈ ca, codeIs o.norm (o.norm code) c = false) (hb : ∀ c ∈ cb, codeIs o.norm (o.norm code) c = false)
+    (hwb : wfItems o body iseen = true) (hiseen : ∀ k ∈ normNames o bls, k ∈ iseen) (hpk : allPacked bls)
+    (hpost : wfBlocks o post bseen2 = true)
+    (hseen2 : ∀ c ∈ w.cif ++ denote o.dia o.normKey pre, o.norm c.code ∈ bseen2)
+    (hfuel : szBlocks pre + (szItems body + body.length + 3) + szBlocks post + 1 ≤ fuel)
+    (hF : Feeds o s (blocksToks pre ++ ((.blockHead, code) :: (itemsToks body ++ (blocksToks post ++ [(.end_, [])]))))) :
+    ∃ s' r, blocksLoop o (fuel + post.length + 1 + pre.length) s acceptAll w
+        = .ok s' { log := r :: w.log,
+                   cif := (ca ++ .mk code0 bfs (denoteItems o.dia o.normKey body bls) :: cb) ++ denote o.dia o.normKey post }
+      ∧ r.code = CIF_DUP_BLOCKCODE
+      ∧ RepAt o s ((blocksToks pre).length + 0) r :=
+  dup_blockcode_run_at o hstore hmfd pre post code code0 body bseen bseen2 iseen s fuel w ca cb bfs bls hpre hseen hcode hk hsplit ha hb hwb hiseen hpk hpost hseen2 hfuel hF
+
+theorem C12_eof_in_frame_at (o : Opts) (done : Cif) (bcode : Str) (hfresh : ∀ c ∈ done, codeIs o.norm (o.norm bcode) c = false)
+    (hmfd : o.maxFrameDepth ≠ 0) (pre : List Elem) (fc : Str) (body : List Item)
+    (seen fseen : List Str) (tx : Str) (ts : List TokSpec) (s : PS) (fuel : Nat) (w : W)
+    (fs : List Container) (ls : List Loop)
+    (hcif : w.cif = done ++ [.mk bcode fs ls]) (hpre : wfElems o pre seen fseen = true)
+    (hseen : ∀ k ∈ normNames o ls, k ∈ seen) (hfseen : ∀ c ∈ fs, o.norm c.code ∈ fseen)
+    (hcode : wfCode fc = true) (hnew : ∀ c ∈ (denoteElems o.dia o.normKey pre fs ls).1, codeIs o.norm (o.norm fc) c = false)
+    (hwb : wfItems o body [] = true)
+    (hfuel : szElems pre + (szItems body + body.length + 3) + 1 ≤ fuel)
+    (hF : Feeds o s (elemsToks pre ++ (((.frameHead, fc) :: itemsToks body) ++ ((.end_, tx) :: ts)))) :
+    ∃ s' r, elemsLoop o (fuel + 1 + pre.length) s (some [o.norm bcode]) true acceptAll w
+        = elemsLoop o fuel s' (some [o.norm bcode]) true acceptAll
+            { log := r :: w.log,
+              cif := done ++ [.mk bcode (denoteElems o.dia o.normKey (pre ++ [.frame fc (body.map Elem.plain)]) fs ls).1
+                (denoteElems o.dia o.normKey (pre ++ [.frame fc (body.map Elem.plain)]) fs ls).2] }
+      ∧ r.code = CIF_EOF_IN_FRAME ∧ Feeds o s' ((.end_, tx) :: ts)
+      ∧ RepAt o s ((elemsToks pre).length + (1 + (itemsToks body).length)) r
+      ∧ At o s ((elemsToks pre).length + (1 + (itemsToks body).length) + 0) s' := by
+  have := frame_open_run_at o done bcode hfresh hmfd pre [] fc body seen fseen
+    (normNames o (denoteElems o.dia o.normKey (pre ++ [.frame fc (body.map Elem.plain)]) fs ls).2)
+    ((denoteElems o.dia o.normKey (pre ++ [.frame fc (body.map Elem.plain)]) fs ls).1.map (fun c => o.norm c.code)) .end_ tx ts ((.end_, tx) :: ts) s fuel w fs ls hcif
+    hpre hseen hfseen hcode hnew hwb rfl (fun _ h => h) (fun c hc => List.mem_map.mpr ⟨c, hc, rfl⟩)
+    (by simpa [szElems] using hfuel) rfl (Or.inl rfl) ⟨_, _, _, rfl, rfl⟩ (by simpa [elemsToks] using hF)
+  simpa [openFrameCode, elemsToks] using this
+
+theorem C12_no_frame_term_at (o : Opts) (done : Cif) (bcode : Str) (hfresh : ∀ c ∈ done, codeIs o.norm (o.norm bcode) c = false)
+    (hmfd : o.maxFrameDepth ≠ 0) (pre : List Elem) (fc : Str) (body : List Item)
+    (seen fseen : List Str) (tx : Str) (ts : List TokSpec) (s : PS) (fuel : Nat) (w : W)
+    (fs : List Container) (ls : List Loop)
+    (hcif : w.cif = done ++ [.mk bcode fs ls]) (hpre : wfElems o pre seen fseen = true)
+    (hseen : ∀ k ∈ normNames o ls, k ∈ seen) (hfseen : ∀ c ∈ fs, o.norm c.code ∈ fseen)
+    (hcode : wfCode fc = true) (hnew : ∀ c ∈ (denoteElems o.dia o.normKey pre fs ls).1, codeIs o.norm (o.norm fc) c = false)
+    (hwb : wfItems o body [] = true)
+    (hfuel : szElems pre + (szItems body + body.length + 3) + 1 ≤ fuel)
+    (hF : Feeds o s (elemsToks pre ++ (((.frameHead, fc) :: itemsToks body) ++ ((.blockHead, tx) :: ts)))) :
+    ∃ s' r, elemsLoop o (fuel + 1 + pre.length) s (some [o.norm bcode]) true acceptAll w
+        = elemsLoop o fuel s' (some [o.norm bcode]) true acceptAll
+            { log := r :: w.log,
+              cif := done ++ [.mk bcode (denoteElems o.dia o.normKey (pre ++ [.frame fc (body.map Elem.plain)]) fs ls).1
+                (denoteElems o.dia o.normKey (pre ++ [.frame fc (body.map Elem.plain)]) fs ls).2] }
+      ∧ r.code = CIF_NO_FRAME_TERM ∧ Feeds o s' ((.blockHead, tx) :: ts)
+      ∧ RepAt o s ((elemsToks pre).length + (1 + (itemsToks body).length)) r
+      ∧ At o s ((elemsToks pre).length + (1 + (itemsToks body).length) + 0) s' := by
+  have := frame_open_run_at o done bcode hfresh hmfd pre [] fc body seen fseen
+    (normNames o (denoteElems o.dia o.normKey (pre ++ [.frame fc (body.map Elem.plain)]) fs ls).2)
+    ((denoteElems o.dia o.normKey (pre ++ [.frame fc (body.map Elem.plain)]) fs ls).1.map (fun c => o.norm c.code)) .blockHead tx ts ((.blockHead, tx) :: ts) s fuel w fs ls
+    hcif hpre hseen hfseen hcode hnew hwb rfl (fun _ h => h) (fun c hc => List.mem_map.mpr ⟨c, hc, rfl⟩)
+    (by simpa [szElems] using hfuel) rfl (Or.inr (Or.inl rfl)) ⟨_, _, _, rfl, rfl⟩ (by simpa [elemsToks] using hF)
+  simpa [openFrameCode, elemsToks] using this
+
+theorem C12_frame_nesting_depth_at (o : Opts) (done : Cif) (bcode : Str) (hfresh : ∀ c ∈ done, codeIs o.norm (o.norm bcode) c = false)
+    (hmfd : o.maxFrameDepth = 1) (pre post : List Elem) (fc fc2 : Str) (body body2 : List Item)
+    (seen fseen seen2 fseen2 : List Str) (rest : List TokSpec) (s : PS) (fuel : Nat) (w : W)
+    (fs : List Container) (ls : List Loop)
+    (hcif : w.cif = done ++ [.mk bcode fs ls]) (hpre : wfElems o pre seen fseen = true)
+    (hseen : ∀ k ∈ normNames o ls, k ∈ seen) (hfseen : ∀ c ∈ fs, o.norm c.code ∈ fseen)
+    (hcode : wfCode fc = true) (hnew : ∀ c ∈ (denoteElems o.dia o.normKey pre fs ls).1, codeIs o.norm (o.norm fc) c = false)
+    (hwb : wfItems o body [] = true)
+    (hpost : wfElems o (.frame fc2 (body2.map Elem.plain) :: post) seen2 fseen2 = true)
+    (hseen2 : ∀ k ∈ normNames o (denoteElems o.dia o.normKey (pre ++ [.frame fc (body.map Elem.plain)]) fs ls).2, k ∈ seen2)
+    (hfseen2 : ∀ c ∈ (denoteElems o.dia o.normKey (pre ++ [.frame fc (body.map Elem.plain)]) fs ls).1, o.norm c.code ∈ fseen2)
+    (hfuel : szElems pre + szElems (.frame fc2 (body2.map Elem.plain) :: post) + (szItems body + body.length + 3) + 1 ≤ fuel)
+    (hrest : ∃ ty tx ts, rest = (ty, tx) :: ts ∧ isTerminator ty = true)
+    (hF : Feeds o s (elemsToks pre ++ (((.frameHead, fc) :: itemsToks body) ++ (elemsToks (.frame fc2 (body2.map Elem.plain) :: post) ++ rest)))) :
+    ∃ s' r, elemsLoop o (fuel + (post.length + 1) + 1 + pre.length) s (some [o.norm bcode]) true acceptAll w
+        = elemsLoop o fuel s' (some [o.norm bcode]) true acceptAll
+            { log := r :: w.log,
+              cif := done ++ [.mk bcode (denoteElems o.dia o.normKey (pre ++ [.frame fc (body.map Elem.plain)] ++ .frame fc2 (body2.map Elem.plain) :: post) fs ls).1
+                (denoteElems o.dia o.normKey (pre ++ [.frame fc (body.map Elem.plain)] ++ .frame fc2 (body2.map Elem.plain) :: post) fs ls).2] }
+      ∧ r.code = CIF_NO_FRAME_TERM ∧ Feeds o s' rest
+      ∧ RepAt o s ((elemsToks pre).length + (1 + (itemsToks body).length)) r
+      ∧ At o s ((elemsToks pre).length + (1 + (itemsToks body).length) + (elemsToks (.frame fc2 (body2.map Elem.plain) :: post)).length) s' := by
+  have := frame_open_run_at o done bcode hfresh (by omega) pre (.frame fc2 (body2.map Elem.plain) :: post) fc body seen fseen seen2 fseen2 .frameHead fc2
+    (itemsToks body2 ++ (.frameTerm, []) :: (elemsToks post ++ rest)) rest s fuel w fs ls
+    hcif hpre hseen hfseen hcode hnew hwb hpost hseen2 hfseen2 hfuel (by simp [elemsToks, elemToks, elemsToks_plains]) (Or.inr (Or.inr ⟨rfl, hmfd⟩)) hrest hF
+  simpa [openFrameCode] using this
+
 end CifModel
